@@ -24,7 +24,7 @@ ENVS = dict(EHLOS='{"ok", "ehlo5", "both5"}', DEV_ValidateLate='FALSE')
 STAGES = {
     'X03': {
         'quick': [('core-calls-len3', 'SmtpCalls', dict(ENVS, MAXOPS='3', CALLS=CORE, CAPSETS='{{}, {"8BITMIME"}}')),
-                  ('dsn-transaction-len5', 'SmtpCalls', dict(ENVS, MAXOPS='5', CALLS=calls(('SetRet',), ('SetNotify',), ('Mail', 'ok'), ('Rcpt', 'ok'), ('Data',), ('Extension', '', 'DSN')),
+                  ('dsn-transaction-len5', 'SmtpCalls', dict(ENVS, MAXOPS='5', CALLS=calls(('SetRet',), ('SetNotify',), ('Mail', 'ok'), ('Mail', 'crlf'), ('Rcpt', 'ok'), ('Rcpt', 'crlf'), ('Data',), ('Extension', '', 'DSN')),
                                                              CAPSETS='{{"8BITMIME", "SMTPUTF8", "DSN"}, {"DSN"}, {"8BITMIME"}}')),
                   ('starttls-len4', 'SmtpCalls', dict(ENVS, MAXOPS='4', CALLS=TLS, CAPSETS='{{"8BITMIME", "STARTTLS"}}'))],
         'thorough': [('starttls-len5', 'SmtpCalls', dict(ENVS, MAXOPS='5', CALLS=TLS, CAPSETS='{{"8BITMIME", "STARTTLS"}, {"STARTTLS"}}')),
